@@ -1,13 +1,13 @@
 """C04 — cut_off removes exactly [start, end) and closes the gap."""
 from props.m1common import *  # noqa: F401,F403
-from props.m1common import g, sp, sx, rng_for, is_err, compare_result, shrink_tree
+from props.m1common import hist_compare, hist_oracle, hist_times, g, sp, sx, rng_for, is_err, compare_result, shrink_tree
 
 PID = "C04"
 KERNELS = ['K_chronon_cut_off', 'K_cut_off_step']   # translated from /repo on every run, tied to the model by coq/Gen/<name>_eq.v
 RUNNER = "impl_m1.py"
 VM_CROSSCHECK = True
 N = {"quick": 2000, "thorough": 80000}
-LEVEL_RULE = ("random event trees as C03; ranges aligned to child boundaries +-1 tick, leaf interiors, past the end, "
+LEVEL_RULE = ("(10 % of the non-leaf cases are histories of 2-3 further ranges on the same event object, every step judged like a single call on the state left behind) random event trees as C03; ranges aligned to child boundaries +-1 tick, leaf interiors, past the end, "
               "starting at/after the end, zero-length children on the edges, negative starts. non-trivial = the call succeeds, "
               "the range is non-empty, intersects the event and crosses at least two leaves or an edge lies strictly inside a leaf "
               "of a nested (depth >= 2) child")
@@ -15,7 +15,7 @@ ASSUMPTIONS = ASSUMPTIONS_M1
 TRUSTED = TRUSTED_M1
 
 
-def gen(seed, index):
+def gen1(seed, index):
     rng = rng_for(PID, seed, index)
     G = g.G(rng)
     t = G.tree(kind=rng.choice(["S", "S", "P", "L", None]))
@@ -30,11 +30,33 @@ def gen(seed, index):
     return ["op", t, ["cut_off", a, b]]
 
 
+def gen(seed, index):
+    case = gen1(seed, index)
+    rng = rng_for(PID + "-hist", seed, index)
+    if rng.random() < 0.1 and case[1][0] != "L":
+        # history stream: 2-3 further ranges removed from the same event object
+        half = max(1, g.dur(case[1]) // 12)
+        d = g.dur(case[1])
+        ops = []
+        for _ in range(rng.randint(2, 3)):
+            a, b = sorted(hist_times(rng, d, half, 2))
+            if a == b:
+                b = a + half
+            ops.append(["cut_off", a, b])
+            d = max(0, d - (min(b, d) - min(a, d)))
+        return ["hist", case[1]] + ops
+    return case
+
+
 def compare(case, mo, io):
+    if case[0] == "hist":
+        return hist_compare(case, mo, io)
     return compare_result(mo, io)
 
 
 def oracle(case, io, mo):
+    if case[0] == "hist":
+        return hist_oracle(oracle, case, io)
     t = sp.norm(case[1])
     s, e = int(case[2][1]), int(case[2][2])
     if s < 0:
@@ -76,6 +98,8 @@ def oracle(case, io, mo):
 
 
 def nontrivial(case, io):
+    if case[0] == "hist":
+        return io is not None and len(io) >= 3 and not any(is_err(x) for x in io[1:])
     if io is None or is_err(io):
         return False
     t = case[1]
@@ -93,16 +117,23 @@ def stats(results):
     c = Counter()
     for r in results:
         io = r.get("io")
+        if r["case"][0] == "hist":
+            c["history:steps=%d" % (len(r["case"]) - 2)] += 1
+            continue
         c["ok" if io and io[0] == "ok" else "err:" + (io[1] if io else "?")] += 1
         c["root:" + r["case"][1][0]] += 1
     return dict(sorted(c.items()))
 
 
 def shrink(case):
+    if case[0] == "hist":
+        return [case[:2] + case[2:2 + i] + case[3 + i:] for i in range(len(case) - 2) if len(case) > 3]
     return [["op", t2, case[2]] for t2 in shrink_tree(case[1])]
 
 
 def neighbours(case):
+    if case[0] == "hist":
+        return shrink(case)
     out = []
     s, e = int(case[2][1]), int(case[2][2])
     for ds in (-1, 0, 1):
